@@ -329,6 +329,67 @@ def _hist_moved_size(size: int, f1: int, f2: int, fm: int, fd: int, s1: int, s2:
     return _history(size, None, None, ((0, f1, s1), (0, f2, s2), (3, fm, s2, fd)))
 
 
+def _verify_case(size, count, inb, ond, s_old, s_new):
+    """re-verification after an observer restart (the real DigitalRFRingbuffer._verify_ringbuffer_files): `inb` = files tracked before the
+    crash (sizes s_old), `ond` = files on disk now (sizes s_new; events were missed in between).  Afterwards the books equal the files on
+    disk (minus what was expired), sizes are the current ones, and nothing was deleted unless the files on disk exceed a limit."""
+    h, fos = _mk(size, count, None)
+    # state before the crash: tracked files with their old sizes
+    for i in range(4):
+        if inb[i]:
+            path, key, grp = FILES[i]
+            fos.truth[path] = s_old
+            h._add_record(h.FileRecord(key=key, size=s_old, path=path, group=grp))
+    if fos.deleted or fos.bad: return True          # the pre-state itself was over the limit: not the case under examination
+    # what is on disk now
+    fos.truth = {}
+    for i in range(4):
+        if ond[i]: fos.truth[FILES[i][0]] = s_new
+    if (count is not None and any(sum(1 for x in FILES if x[2] == g and x[0] in fos.truth) > count for g in set(x[2] for x in FILES))) \
+            or (size is not None and sum(fos.truth.values()) > size):
+        over = True
+    else:
+        over = False
+    table = {x[0]: x for x in FILES}
+    h._get_file_record = lambda p: (h.FileRecord(key=table[p][1], size=fos.truth[p], path=p, group=table[p][2]) if p in fos.truth else None)
+    class LD:
+        @staticmethod
+        def ilsdrf(path, **kw): return iter(sorted(fos.truth.keys()))
+    rb = RB.DigitalRFRingbuffer.__new__(RB.DigitalRFRingbuffer)
+    rb.path = '/w'; rb.starttime = None; rb.endtime = None; rb.include_drf = True; rb.include_dmd = True; rb.event_handler = h
+    old = RB.list_drf; RB.list_drf = LD
+    try:
+        rb._verify_ringbuffer_files(set(h.records.keys()))
+    finally:
+        RB.list_drf = old
+    if fos.bad: return False
+    if not over and fos.deleted: return False
+    if not _state_ok(h, None): return False
+    if sorted(h.records.keys()) != sorted(fos.truth.keys()): return False
+    for p, rec in h.records.items():
+        if rec.size != fos.truth[p]: return False
+    # once a newly found file has been handled every limit holds again (a file that merely grew is, as for a plain modify event, not a reason
+    # to expire at once)
+    if any(ond[i] and not inb[i] for i in range(4)) and not _limits_ok(h, size, count, None): return False
+    return True
+
+
+def _verify_count(count: int, i0: bool, i1: bool, i2: bool, i3: bool, o0: bool, o1: bool, o2: bool, o3: bool) -> bool:
+    """
+    pre: 1 <= count <= 2
+    post: _
+    """
+    return _verify_case(None, count, [i0, i1, i2, i3], [o0, o1, o2, o3], 10, 10)
+
+
+def _verify_size(size: int, i0: bool, i1: bool, i2: bool, i3: bool, o0: bool, o1: bool, o2: bool, o3: bool, s_old: int, s_new: int) -> bool:
+    """
+    pre: 200 <= size <= 400 and 1 <= s_old <= 100 and 1 <= s_new <= 100
+    post: _
+    """
+    return _verify_case(size, None, [i0, i1, i2, i3], [o0, o1, o2, o3], s_old, s_new)
+
+
 def _ring_witness(f1: int, f2: int) -> bool:
     """
     pre: 0 <= f1 <= 3 and 0 <= f2 <= 3
